@@ -41,6 +41,7 @@ func withMod(s *PScn, f func()) {
 	defer func() { pipeMod = old }()
 	f()
 }
+
 const pipeBase = "zz_generated"
 
 type PTag struct {
@@ -70,26 +71,26 @@ type PGen struct {
 }
 
 type PScn struct {
-	Pkgs    []PPkg            `json:"pkgs"`
-	Globals []PTag            `json:"globals,omitempty"`
-	Gens    []PGen            `json:"gens"`
-	Reacts  map[string]string `json:"reacts,omitempty"` // gen@pkgpath@type → verdict(o s i f) render(n v x) defer(- d e)
-	Entry   []int             `json:"entry"`
-	All     bool              `json:"all"`
-	Force   bool              `json:"force"`
-	Prev    string            `json:"prev"`             // "none" | "corrupt" | one letter per package: c(orrect) s(tale) m(issing)
-	GoVer   string            `json:"go,omitempty"`     // go directive, default 1.24
-	Kill    string            `json:"kill,omitempty"`   // gen@pkgpath@type: os.Exit inside that GenerateType call
-	Order   []int             `json:"order,omitempty"`  // permutation of Entry positions (entrypoint order)
-	Runs    int               `json:"runs,omitempty"`   // >1: run Execute several times in a row (fresh context each)
-	Alone   int               `json:"alone,omitempty"`  // >0: run only package index Alone-1 as entrypoint, without All (C05 reference)
-	Root    string            `json:"root,omitempty"`   // harness-internal: use this directory instead of a fresh temp dir and keep it
-	Reuse   bool              `json:"reuse,omitempty"`  // harness-internal: the tree under Root already exists
-	Ops     []string          `json:"ops,omitempty"`    // history (C08): operations applied before each run, see histCase
-	Mod     string            `json:"mod,omitempty"`    // module path (default example.com/m)
+	Pkgs    []PPkg             `json:"pkgs"`
+	Globals []PTag             `json:"globals,omitempty"`
+	Gens    []PGen             `json:"gens"`
+	Reacts  map[string]string  `json:"reacts,omitempty"` // gen@pkgpath@type → verdict(o s i f) render(n v x) defer(- d e)
+	Entry   []int              `json:"entry"`
+	All     bool               `json:"all"`
+	Force   bool               `json:"force"`
+	Prev    string             `json:"prev"`             // "none" | "corrupt" | one letter per package: c(orrect) s(tale) m(issing)
+	GoVer   string             `json:"go,omitempty"`     // go directive, default 1.24
+	Kill    string             `json:"kill,omitempty"`   // gen@pkgpath@type: os.Exit inside that GenerateType call
+	Order   []int              `json:"order,omitempty"`  // permutation of Entry positions (entrypoint order)
+	Runs    int                `json:"runs,omitempty"`   // >1: run Execute several times in a row (fresh context each)
+	Alone   int                `json:"alone,omitempty"`  // >0: run only package index Alone-1 as entrypoint, without All (C05 reference)
+	Root    string             `json:"root,omitempty"`   // harness-internal: use this directory instead of a fresh temp dir and keep it
+	Reuse   bool               `json:"reuse,omitempty"`  // harness-internal: the tree under Root already exists
+	Ops     []string           `json:"ops,omitempty"`    // history (C08): operations applied before each run, see histCase
+	Mod     string             `json:"mod,omitempty"`    // module path (default example.com/m)
 	Custom  map[string][]PItem `json:"custom,omitempty"` // gen@pkgpath@type → what a reaction with render code 'b' renders
-	Lib     bool              `json:"lib,omitempty"`    // add a module-local package <mod>/lib (type Thing) for references
-	Nested  bool              `json:"nested,omitempty"` // a second module <mod>/sub nested in the tree (own go.mod, replaced by ./sub), whose package <mod>/sub/p the first package imports: not a package of this module, whatever its path looks like
+	Lib     bool               `json:"lib,omitempty"`    // add a module-local package <mod>/lib (type Thing) for references
+	Nested  bool               `json:"nested,omitempty"` // a second module <mod>/sub nested in the tree (own go.mod, replaced by ./sub), whose package <mod>/sub/p the first package imports: not a package of this module, whatever its path looks like
 }
 
 // PItem: one rendered snippet of a custom body
@@ -597,18 +598,18 @@ func mkGenerator0(g PGen) gengo.Generator {
 // ---------------------------------------------------------------- running a scenario (child side)
 
 type POut struct {
-	Result  string            `json:"result"`            // ok | generate:g:p | deferred:g:p | syntax:rel | loaderr | other:… | panic:… | killed
+	Result  string            `json:"result"` // ok | generate:g:p | deferred:g:p | syntax:rel | loaderr | other:… | panic:… | killed
 	ErrText string            `json:"err,omitempty"`
-	Before  map[string]string `json:"before"`            // rel path → sha of every file of the module tree before the run
-	After   map[string]string `json:"after"`             // … and after
+	Before  map[string]string `json:"before"` // rel path → sha of every file of the module tree before the run
+	After   map[string]string `json:"after"`  // … and after
 	Calls   []string          `json:"calls"`
-	Bodies  map[string]string `json:"bodies,omitempty"`  // pkgpath/gen → rendered text
-	Hashes  map[string]string `json:"hashes"`            // pkg path → dirhash before the run (loaded local packages)
-	PrevSum string            `json:"prev_sum"`          // text of gengo.sum before the run ("" with HasPrev=false: none)
+	Bodies  map[string]string `json:"bodies,omitempty"` // pkgpath/gen → rendered text
+	Hashes  map[string]string `json:"hashes"`           // pkg path → dirhash before the run (loaded local packages)
+	PrevSum string            `json:"prev_sum"`         // text of gengo.sum before the run ("" with HasPrev=false: none)
 	HasPrev bool              `json:"has_prev"`
-	Sum     string            `json:"sum"`               // hex of gengo.sum after the run, "none" if absent
-	Runs    []PRun            `json:"runs,omitempty"`    // per additional run (Runs > 1)
-	Texts   map[string]string `json:"texts,omitempty"`   // rel path → content of every <base>.* file after the run
+	Sum     string            `json:"sum"`             // hex of gengo.sum after the run, "none" if absent
+	Runs    []PRun            `json:"runs,omitempty"`  // per additional run (Runs > 1)
+	Texts   map[string]string `json:"texts,omitempty"` // rel path → content of every <base>.* file after the run
 }
 
 type PRun struct {
@@ -1121,7 +1122,6 @@ func (s *PScn) canonModel(o *POut, m string) string {
 	return c
 }
 
-
 // runKillScenario runs a scenario that exits the process inside a GenerateType call, in a child of
 // its own on a directory the parent owns, and reports the tree the dead process left behind;
 // then runs once more on that tree (no kill) to see what the next run does.
@@ -1158,7 +1158,6 @@ func runKillScenario(s *PScn) (*POut, *POut) {
 	next := runScenarios([]*PScn{&n}, 1)[0]
 	return out, next
 }
-
 
 // runChildJSON runs `vh child <kind>` with the input on stdin and returns what it wrote to fd 3.
 func runChildJSON(kind string, input []byte) []byte {
